@@ -43,6 +43,7 @@ func init() {
 // what the private connections observe.
 func privateRound(rep *Report, d *Driver, distinct map[string]bool, cfg StackCfg, ci, ri, n, steps int, seed int64, tier string,
 	background func(st *Stack, stop <-chan struct{}, wg *sync.WaitGroup)) {
+	crumb(fmt.Sprintf("%s: %d concurrent connections on private keys, %d commands each (round %d)", cfg, n, steps, ri), map[string]interface{}{"seed": seed})
 	st := GetStack(cfg)
 	if ri%2 == 1 {
 		// every other round on one or two processors: the server's goroutines then share per-P
